@@ -104,18 +104,63 @@ type toolResult struct {
 	Exit     int // exit status; -1 = killed (time limit) or could not start
 	Stdout   string
 	Stderr   string
-	TimedOut bool
-	StartErr error
+	TimedOut bool // the time limit was exceeded twice: in the pool and again when run alone
+	// SlowUnderLoad: the first run (next to its pool siblings) exceeded the time limit, the second one,
+	// alone, did not: the result is that of the second run (evidence class "tool-slow-under-load")
+	SlowUnderLoad bool
+	StartErr      error
 }
 
 // toolVLimitKB is the address-space limit of a tool process (a runaway allocation must not take the
 // machine down; Go programs of this size need well under 1 GB).
 const toolVLimitKB = 4 << 20
 
-const toolTimeout = 30 * time.Second
+// toolTimeout is the time limit of one tool run (VERIF_TOOL_TIMEOUT, a Go duration, overrides it for
+// development runs and for the tests of the retry logic).
+var toolTimeout = func() time.Duration {
+	if d, err := time.ParseDuration(os.Getenv("VERIF_TOOL_TIMEOUT")); err == nil && d > 0 {
+		return d
+	}
+	return 30 * time.Second
+}()
 
-// runTool runs bin with args in dir.
+// toolGate: pool runs hold it shared; the re-run of a timed-out case holds it exclusively, so that no
+// sibling of this test process runs next to it.
+var toolGate sync.RWMutex
+
+// runTool runs bin with args in dir. A run that exceeds the time limit says little on a loaded machine
+// (other shards, other checks): the case is run a second time with the pool of this process drained,
+// after removing what the first run left in dir; only a second timeout is reported (TimedOut).
 func runTool(dir, bin string, args ...string) toolResult {
+	before := map[string]bool{}
+	if ents, err := os.ReadDir(dir); err == nil {
+		for _, e := range ents {
+			before[e.Name()] = true
+		}
+	}
+	toolGate.RLock()
+	res := runToolOnce(dir, bin, args...)
+	toolGate.RUnlock()
+	if !res.TimedOut {
+		return res
+	}
+	toolGate.Lock()
+	defer toolGate.Unlock()
+	if ents, err := os.ReadDir(dir); err == nil {
+		for _, e := range ents {
+			if !before[e.Name()] {
+				_ = os.RemoveAll(filepath.Join(dir, e.Name()))
+			}
+		}
+	}
+	res = runToolOnce(dir, bin, args...)
+	if !res.TimedOut {
+		res.SlowUnderLoad = true
+	}
+	return res
+}
+
+func runToolOnce(dir, bin string, args ...string) toolResult {
 	ctx, cancel := context.WithTimeout(context.Background(), toolTimeout)
 	defer cancel()
 	script := "ulimit -v " + strconv.Itoa(toolVLimitKB) + "; exec \"$0\" \"$@\""
@@ -140,6 +185,11 @@ func runTool(dir, bin string, args ...string) toolResult {
 	return res
 }
 
+// timeLimitFail is the failure of a tool that exceeded the time limit twice (see runTool).
+func timeLimitFail(tool, cmdline string, r toolResult) *harness.Fail {
+	return harness.Failf(propertyID+"|"+tool+"|time limit exceeded", "%s: no result within %v, neither next to the other cases of the batch nor when run alone\n%s", cmdline, toolTimeout, tail(r.Stderr, 600))
+}
+
 var (
 	panicLineRe = regexp.MustCompile(`(?m)^(panic: .*|fatal error: .*)$`)
 	frameLineRe = regexp.MustCompile(`(?m)^(github\.com/Eyevinn/mp4ff/[^\s(]+(?:\([^)]*\))?[^\s(]*|main\.[A-Za-z0-9_.()*]+)\(`)
@@ -148,9 +198,10 @@ var (
 
 // crashed reports whether the process died from a Go panic / runtime fatal error (exit status 2 with
 // a trace on stderr) or a signal, and returns a short stable class: "<message class> in <top frame>".
+// A time limit exceeded twice (TimedOut) is not a crash: callers test it first (timeLimitFail).
 func (r toolResult) crashed() (bool, string) {
 	if r.TimedOut {
-		return true, "time limit exceeded"
+		return false, ""
 	}
 	m := panicLineRe.FindString(r.Stderr)
 	if m == "" {
@@ -233,4 +284,52 @@ func parallel(n int, fn func(i int)) {
 		}(i)
 	}
 	wg.Wait()
+}
+
+// TestRunToolRetry anchors the time-limit handling of runTool on a stand-in tool (a shell script): slow
+// on its first run only -> the result of the second run, marked SlowUnderLoad, in a directory cleared of
+// what the first run left; slow both times -> TimedOut.
+func TestRunToolRetry(t *testing.T) {
+	defer cleanupTmp()
+	old := toolTimeout
+	toolTimeout = 400 * time.Millisecond
+	defer func() { toolTimeout = old }()
+	dir, err := caseDir()
+	if err != nil {
+		t.Fatal(err)
+	}
+	defer os.RemoveAll(dir)
+	root, _ := tmpRoot()
+	marker := filepath.Join(root, "retry-marker")
+	_ = os.Remove(marker)
+	defer os.Remove(marker)
+	script := filepath.Join(dir, "tool.sh")
+	body := "#!/bin/sh\nif [ \"$1\" = always ]; then exec sleep 20; fi\nif [ -e \"$1\" ]; then if [ -e junk ]; then exit 7; fi; echo second; exit 3; fi\n: > \"$1\"\n: > junk\nexec sleep 20\n"
+	if err := os.WriteFile(script, []byte(body), 0o755); err != nil {
+		t.Fatal(err)
+	}
+	if err := os.WriteFile(filepath.Join(dir, "in.mp4"), []byte("x"), 0o644); err != nil {
+		t.Fatal(err)
+	}
+	r := runTool(dir, script, marker)
+	if r.TimedOut || !r.SlowUnderLoad || r.Exit != 3 || strings.TrimSpace(r.Stdout) != "second" {
+		t.Fatalf("slow first run: %+v", r)
+	}
+	if _, err := os.Stat(filepath.Join(dir, "in.mp4")); err != nil {
+		t.Fatalf("the input was removed before the second run: %v", err)
+	}
+	r = runTool(dir, script, marker)
+	if r.TimedOut || r.SlowUnderLoad || r.Exit != 3 { // the marker exists, junk was cleared
+		t.Fatalf("fast run: %+v", r)
+	}
+	r = runTool(dir, script, "always")
+	if !r.TimedOut || r.SlowUnderLoad {
+		t.Fatalf("slow twice: %+v", r)
+	}
+	if crashed, _ := r.crashed(); crashed {
+		t.Fatalf("a time limit is not a crash")
+	}
+	if f := timeLimitFail("tool", "tool.sh always", r); f == nil || f.Key != propertyID+"|tool|time limit exceeded" {
+		t.Fatalf("key: %+v", f)
+	}
 }
